@@ -13,6 +13,8 @@ Case grammar sent to `drv_clientread`:
     TAIL <hex|-> <idle|fin|rst>                         incomplete last frame, and what the peer does then
     SUB  <sub_all 0|1> <type> ...                       initial subscription state
     CALL read <none|zero|pos|neg> <ack 0|1> <sync 0|1> | CALL sub <sub_all> <type> ...
+    CALL defs <type> <size> <hash> ...                  the local definitions of the occurring types from now on (a type
+                                                        registered again with another layout / added / removed)
     OBS  <consumed> <connected 0|1> <msg hdr payload|none|unknownType hdr raw|invalidDef|lost|notConnected|blocked|crash:X>
     END
 
@@ -50,6 +52,21 @@ class WouldBlock(BaseException):
     """The real call would not return (idle peer)."""
 
 
+class Hang(BaseException):
+    """The code under test does not come back from one API call: it keeps polling the socket without consuming anything
+    new (an endless loop).  Reported as the observation `crash:Hang`, never as a time-out of the harness."""
+
+
+TICK_LIMIT = 3000       # select / recv calls within ONE API call; the longest legitimate call makes a few per frame
+_TICKS = [0]
+
+
+def _tick():
+    _TICKS[0] += 1
+    if _TICKS[0] > TICK_LIMIT:
+        raise Hang()
+
+
 class FakeSock:
     def __init__(self, data: bytes, end: str, cuts: Sequence[int] = ()):
         self.data = data
@@ -68,6 +85,7 @@ class FakeSock:
         return 9999
 
     def _take(self, n: int, flags: int) -> bytes:
+        _tick()
         if self.closed:
             raise OSError(9, "Bad file descriptor")
         avail = len(self.data) - self.pos
@@ -147,6 +165,7 @@ class FakeSelect:
 
     @staticmethod
     def select(r, w, x, timeout=None):
+        _tick()
         rr = [s for s in r if getattr(s, "readable", lambda: True)()]
         if r and not rr and not w:
             if timeout is None:
@@ -169,7 +188,7 @@ def env():
     import pyrtma.core_defs as cd
     from pyrtma.message_data import MessageData
     from pyrtma.message_base import MessageMeta
-    from pyrtma.validators import ByteArray
+    from pyrtma.validators import ByteArray, Uint8
     from pyrtma import exceptions as EX
 
     # sockets made by the client code: the next prepared stream, else an unconnected blank
@@ -183,16 +202,39 @@ def env():
     from .rebind import rebind              # installs the stand-ins under any import style of client.py
     rebind(PC, {"select": FakeSelect, "socket": shim, "time": Clock})
     _ENV["queue"] = queue
-    for tid, (size, h) in TEST_DEFS.items():
+    def make_def(tid: int, size: int, h: int):
         ns: Dict[str, Any] = {"type_id": tid, "type_name": f"T{tid}", "type_hash": h, "type_size": size,
                               "type_source": "", "type_def": "", "__annotations__": {}}
-        if size:
+        if size == 1:
+            ns["b"] = Uint8()
+            ns["__annotations__"]["b"] = Uint8
+        elif size:
             ns["b"] = ByteArray(size)
             ns["__annotations__"]["b"] = ByteArray
-        PM._msg_defs[tid] = MessageMeta(f"MDF_T{tid}", (MessageData,), ns)
+        return MessageMeta(f"MDF_T{tid}", (MessageData,), ns)
+
+    def set_def(tid: int, layout):
+        """register `tid` with (size, hash) through the public decorator; `None` removes the definition (through the
+        module's own table setter)"""
+        if layout is None:
+            PM._set_msg_defs({k: v for k, v in PM._msg_defs.items() if k != tid})
+        else:
+            PM.message_def(make_def(tid, layout[0], layout[1]))
+
+    for tid, (size, h) in TEST_DEFS.items():
+        set_def(tid, (size, h))
     logging.getLogger().setLevel(logging.CRITICAL + 10)
-    _ENV.update(PC=PC, PM=PM, cd=cd, EX=EX)
+    _ENV.update(PC=PC, PM=PM, cd=cd, EX=EX, set_def=set_def)
     return _ENV
+
+
+def def_lines(PM, types) -> List[str]:
+    out = []
+    for t in sorted(types):
+        cls = PM._msg_defs.get(t)
+        if cls is not None:
+            out.append(f"{t} {cls.type_size} {cls.type_hash}")
+    return out
 
 
 def header_bytes(timecode: bool, msg_type: int, nbytes: int, version: int, salt: int = 0) -> bytes:
@@ -229,6 +271,24 @@ def mask(h: bytes) -> bytes:
     return h[:16] + b"\0" * 8 + h[24:]
 
 
+def read_call(c, tval, ack: bool, sync: bool, shape: int):
+    """`Client.read_message` the way callers write it: every second call leaves out the arguments that have their
+    documented default (`timeout=-1`, `ack=False`, `sync_check=False`), every fourth passes all three positionally - the
+    defaults and the parameter order of the signature are part of what is compared"""
+    if shape % 4 == 3:
+        return c.read_message(tval, ack, sync)
+    if shape % 2 == 0:
+        return c.read_message(timeout=tval, ack=ack, sync_check=sync)
+    kw: Dict[str, Any] = {}
+    if not (tval is not None and tval == -1):
+        kw["timeout"] = tval
+    if ack:
+        kw["ack"] = True
+    if sync:
+        kw["sync_check"] = True
+    return c.read_message(**kw)
+
+
 def run_case(cid: str, case: Dict[str, Any]) -> List[str]:
     """case: timecode, frames [(hdr, payload)], tail, end, cuts, sub (all, [types]), calls [...]"""
     E = env()
@@ -253,10 +313,7 @@ def run_case(cid: str, case: Dict[str, Any]) -> List[str]:
         types.add(struct.unpack_from("<i", h, 0)[0])
     if len(case["tail"]) >= 4:
         types.add(struct.unpack_from("<i", case["tail"], 0)[0])
-    for t in sorted(types):
-        cls = PM._msg_defs.get(t)
-        if cls is not None:
-            lines.append(f"DEF {t} {cls.type_size} {cls.type_hash}")
+    lines += ["DEF " + d for d in def_lines(PM, types)]
     for h, p in frames:
         lines.append(f"FRAME {hexs(h)} {hexs(p)}")
     lines.append(f"TAIL {hexs(case['tail'])} {case['end']}")
@@ -264,7 +321,16 @@ def run_case(cid: str, case: Dict[str, Any]) -> List[str]:
     obs = []
     held = []
     stop = False
+    changed: Dict[int, Any] = {}
     for call in case["calls"]:
+        if call[0] == "defs":
+            # the local definition table changes between reads: [(type, (size, hash) | None)]
+            if not stop:
+                for tid, layout in call[1]:
+                    changed[tid] = TEST_DEFS.get(tid)
+                    E["set_def"](tid, tuple(layout) if layout is not None else None)
+                lines.append("CALL defs " + " ".join(def_lines(PM, types)))
+            continue
         if call[0] == "sub":
             _, a, ts = call
             lines.append("CALL sub %d %s" % (int(bool(a)), " ".join(map(str, ts))))
@@ -277,8 +343,9 @@ def run_case(cid: str, case: Dict[str, Any]) -> List[str]:
             continue
         tval = {"none": None, "zero": 0, "pos": 0.25, "neg": -1}[tmo]
         before = sock.pos
+        _TICKS[0] = 0
         try:
-            m = c.read_message(timeout=tval, ack=ack, sync_check=sync)
+            m = read_call(c, tval, ack, sync, len(obs))
             if m is None:
                 r = "none"
             else:
@@ -286,6 +353,9 @@ def run_case(cid: str, case: Dict[str, Any]) -> List[str]:
                 held.append((len(obs), m))      # the caller keeps the message: it is rendered again after the last read
         except WouldBlock:
             r = "blocked"
+            stop = True
+        except Hang:
+            r = "crash:Hang"
             stop = True
         except EX.UnknownMessageType as e:
             hh = e.args[1] if len(e.args) > 1 else None
@@ -308,6 +378,8 @@ def run_case(cid: str, case: Dict[str, Any]) -> List[str]:
     lines += obs
     lines.append("END")
     PV.set_connected(c, False)       # keep __del__ from "disconnecting" (it sleeps 100 ms)
+    for tid, layout in changed.items():     # the next case starts from the test definitions again
+        E["set_def"](tid, layout)
     return lines
 
 
@@ -402,6 +474,34 @@ def sub_changes(tc: bool = False):
                        "timecode": tc, "tag": "sub:" + ",".join(seq)}
 
 
+# changes of the local definition table between reads: (type, new (size, hash) | None = removed)
+DEF_CHANGES: List[List[Tuple[int, Any]]] = [
+    [(5002, (6, TEST_DEFS[5002][1]))],              # registered again, larger: `sizePlus` frames become good, `goodS` wrong
+    [(5002, (4, 0x33333333))],                      # same size, another hash: with sync_check `goodS` is a wrong version
+    [(5004, (1, TEST_DEFS[5004][1]))],              # registered again, smaller: `sizeMinus` becomes good, `zeroVer` wrong
+    [(UNKNOWN_T, (5, 0x55))],                       # a definition for a type that had none
+    [(5003, None)],                                 # a definition removed: `goodU` becomes an unknown type
+    [(5002, (6, 0x44444444)), (5003, None), (UNKNOWN_T, (5, 0x56))],
+]
+
+
+def def_changes():
+    """one frame read under the test definitions, then the table changes, then two more frames (every kind that a change
+    can turn from good into undecodable or back) x sync_check; half of the cases subscribed to everything"""
+    kinds = ["goodS", "sizePlus", "sizeMinus", "zeroVer", "unknown", "goodU", "badVer"]
+    n = 0
+    for ch in DEF_CHANGES:
+        for k0 in kinds:
+            for k1, k2 in itertools.product(kinds, repeat=2):
+                for sync in (False, True):
+                    n += 1
+                    fr = [frame(k, False, i + 1) for i, k in enumerate((k0, k1, k2))]
+                    calls = [("read", "pos", False, sync), ("defs", ch), ("read", "pos", False, sync),
+                             ("read", "zero", False, sync), ("read", "pos", False, sync)]
+                    yield {"frames": fr, "tail": b"", "end": "idle", "sub": (True, [ALLT]) if n % 2 else (False, SUB0 + [5003]),
+                           "calls": calls, "tag": "defs:" + ",".join((k0, k1, k2))}
+
+
 def rand_case(rng, malformed: bool = False) -> Dict[str, Any]:
     tc = rng.random() < 0.3
     n = rng.randint(0, 8)
@@ -434,6 +534,8 @@ def rand_case(rng, malformed: bool = False) -> Dict[str, Any]:
         if rng.random() < 0.25:
             calls.append(("sub",) + rng.choice([(False, SUB0), (False, []), (True, [ALLT]), (False, [5003]),
                                                  (False, [5001, 5002, 5003, 5004, ACK])]))
+        if not malformed and rng.random() < 0.04:
+            calls.append(("defs", rng.choice(DEF_CHANGES)))
         calls.append(("read", rng.choice(["none", "zero", "pos", "neg", "zero", "pos"]), rng.random() < 0.3,
                       rng.random() < 0.5))
     data_len = sum(len(h) + len(p) for h, p in fr) + len(tail)
@@ -543,7 +645,8 @@ def from_json(c: Dict[str, Any]) -> Dict[str, Any]:
     d = dict(c)
     d["frames"] = [(bytes.fromhex(h), bytes.fromhex(p)) for h, p in c["frames"]]
     d["tail"] = bytes.fromhex(c["tail"])
-    d["calls"] = [tuple(x) for x in c["calls"]]
+    d["calls"] = [("defs", [(t, tuple(l) if l is not None else None) for t, l in x[1]]) if x[0] == "defs" else tuple(x)
+                  for x in c["calls"]]
     d["sub"] = (c["sub"][0], list(c["sub"][1]))
     return d
 
@@ -592,11 +695,15 @@ def run_life_case(cid: str, case: Dict[str, Any]) -> List[str]:
             data = b"".join(h + p for h, p in w["frames"]) + w["tail"]
             sock = FakeSock(data, w["end"], w.get("cuts", ()))
             E["queue"].append(sock)
+            _TICKS[0] = 0
             try:
                 c.connect("h:1")
                 r = "joined"
             except WouldBlock:
                 r = "blocked"
+                stop = True
+            except Hang:
+                r = "crash:Hang"
                 stop = True
             except EX.AcknowledgementTimeout:
                 r = "ackTimeout"
@@ -610,8 +717,9 @@ def run_life_case(cid: str, case: Dict[str, Any]) -> List[str]:
                 r = "notConnected"
             except Exception as e:  # noqa: BLE001
                 r = f"crash:{type(e).__name__}"
-            if E["queue"]:
-                raise C.MachineryError("connect() did not take the prepared socket")
+            # a connect() that never asked for a new socket did not touch the prepared stream: that is an observation
+            # (0 bytes consumed, whatever connect() answered), not a failure of the harness
+            del E["queue"][:]
             cur = sock
             lines.append(f"COBS {sock.pos} {int(bool(c.connected))} {r}")
         elif kind == "read":
@@ -621,11 +729,15 @@ def run_life_case(cid: str, case: Dict[str, Any]) -> List[str]:
                 continue
             tval = {"none": None, "zero": 0, "pos": 0.25, "neg": -1}[tmo]
             before = cur.pos if cur is not None else 0
+            _TICKS[0] = 0
             try:
-                m = c.read_message(timeout=tval, ack=ack, sync_check=sync)
+                m = read_call(c, tval, ack, sync, len(lines))
                 r = "none" if m is None else f"msg {hexs(mask(bytes(m.header)))} {hexs(bytes(m.data))}"
             except WouldBlock:
                 r = "blocked"
+                stop = True
+            except Hang:
+                r = "crash:Hang"
                 stop = True
             except EX.UnknownMessageType as e:
                 hh = e.args[1] if len(e.args) > 1 else None
@@ -653,6 +765,7 @@ def run_life_case(cid: str, case: Dict[str, Any]) -> List[str]:
             lines.append("CALL disconnect")
             if stop:
                 continue
+            _TICKS[0] = 0
             c.disconnect()
             lines.append("UOBS")
         elif kind == "sendFail":
@@ -661,6 +774,7 @@ def run_life_case(cid: str, case: Dict[str, Any]) -> List[str]:
                 continue
             if cur is not None:
                 cur.send_dead = True
+            _TICKS[0] = 0
             try:
                 c.send_signal(1234)
                 r = "joined"        # a send that succeeds is not what this call stands for
@@ -668,6 +782,9 @@ def run_life_case(cid: str, case: Dict[str, Any]) -> List[str]:
                 r = "lost"
             except EX.NotConnectedError:
                 r = "notConnected"
+            except Hang:
+                r = "crash:Hang"
+                stop = True
             except Exception as e:  # noqa: BLE001
                 r = f"crash:{type(e).__name__}"
             lines.append(f"COBS 0 {int(bool(c.connected))} {r}")
